@@ -3,6 +3,7 @@ package faults
 import (
 	"testing"
 
+	"verif/harness/awsx"
 	"verif/harness/ev"
 )
 
@@ -11,4 +12,7 @@ func schedulesForC09(t *testing.T, r *ev.Run) {
 	exploreSchedules(t, r, "C09", func(c schedCell) bool { return c.nproc == 2 }, ev.Pick(60, 3000), false)
 }
 
-func awsPlaintexts(t *testing.T, r *ev.Run) {}
+// awsPlaintexts checks that data-key plaintexts obtained from the (fake) cloud KMS are wiped by both plug-ins.
+func awsPlaintexts(t *testing.T, r *ev.Run) {
+	awsx.Sweep(r, "C10", ev.Pick(2, 3), 1)
+}
